@@ -19,6 +19,14 @@ OBLIGATIONS = [
     "KafVerif.C40.handler_writes_preserve_store",
     "KafVerif.C40.aliasing_read_breaks_store",
     "KafVerif.C40.aliasing_partition_array_breaks_store",
+    "KafVerif.C40.etcd_reads_issue_no_writes",
+    "KafVerif.C40.etcd_table_nonvacuous",
+    "KafVerif.C40.etcd_read_ops_preserve_keyspace",
+    "KafVerif.C40.etcd_lookup_preserves_keyspace",
+    "KafVerif.C40.etcd_fetch_offsets_preserves_keyspace",
+    "KafVerif.C40.lazy_retention_lookup_changes_keyspace",
+    "KafVerif.C40.rewrite_same_bytes_bumps_revision",
+    "KafVerif.C40.put_changes_keyspace",
 ]
 BUILDS = {"h": ("root", "./cmd/verif_c40", ["C40"])}
 LEVEL_TEXT = ("Lean 4: over the table REGENERATED from the source (per registered MCP tool, the metadata.Store methods reachable "
@@ -28,11 +36,17 @@ LEVEL_TEXT = ("Lean 4: over the table REGENERATED from the source (per registere
               "arguments, leaves the state unchanged (tool_calls_preserve_state); same for the hand-written handler models "
               "(runTool_preserves_state) whose outputs are compared with the real tools; on a nested heap model (topics array -> "
               "partitions arrays -> replica arrays) the deep clone hands out only fresh buffers at every level and no handler write "
-              "into them changes what the store holds (read_returns_fresh_buffers, handler_writes_preserve_store).")
+              "into them changes what the store holds (read_returns_fresh_buffers, handler_writes_preserve_store); for the "
+              "etcd-backed store a second REGENERATED table (per Store method of EtcdStore: the etcd client operations and the "
+              "calls on its cached snapshot reachable inside pkg/metadata) shows that every method a tool reaches issues only "
+              "Get/Watch (etcd_reads_issue_no_writes), and on a revisioned key-value model such operations leave keys, values and "
+              "revisions unchanged (etcd_read_ops_preserve_keyspace), the offset lookup does so whatever the age of the commit "
+              "(etcd_lookup_preserves_keyspace) while a lazily expiring lookup does not (lazy_retention_lookup_changes_keyspace).")
 LEVEL_NOTE = ("Trusted: Lean kernel; the go/ast extractor (call graph restricted to internal/mcpserver, Store methods recognised by "
               "name, any other use of the store value counted as an escape); that the real read methods do not write is validated, not "
-              "proved: full snapshots of InMemoryStore and of EtcdStore (etcd key dump + cached metadata) before/after every call "
-              "through a real MCP client session.")
+              "proved: full snapshots of InMemoryStore and of EtcdStore (etcd key dump WITH mod/create revisions, versions and "
+              "leases + cached metadata) before/after every call through a real MCP client session, on stores that also hold "
+              "commits made long ago (etcd records with committed_at 1 h .. 1 year old, zero, unparsable, empty).")
 TECHNIQUE = "Lean 4 table obligation over go/ast-extracted facts + store model + before/after snapshots of the real stores"
 ASSUMPTIONS = [
     "the go-sdk MCP server dispatches a tool call only to the handler registered under that name",
@@ -49,6 +63,15 @@ ASSUMPTIONS = [
     "with explicit topic subsets (the by-name form takes its own path through the store), 1-3 times in a row, and the "
     "before/after snapshots are order-sensitive for every list at every level (topics, partitions, replicas, isr, offline; "
     "groups and configs as deterministic protobuf bytes)",
+    "TIME: the store model keeps no clock; that a read does not depend on the AGE of what it reads (lazy expiry, read-repair, "
+    "touch-on-read) is covered by (a) the regenerated etcd-operation table (a read method of EtcdStore that reaches Put/Delete/Txn "
+    "fails etcd_reads_issue_no_writes), (b) old commits written straight into etcd with committed_at 1 h, 6 d 23 h, just under "
+    "7 d, 7 d + 1 s, 30 d, 1 year, zero time, unparsable and empty before every tool is called, with the etcd dump compared "
+    "including revisions (a rewrite with identical bytes still bumps mod_revision: rewrite_same_bytes_bumps_revision); ages "
+    "beyond 1 year and clocks moving during a run are not explored; the in-memory store keeps no timestamps at all",
+    "the etcd-operation extractor recognises etcd calls by operation name (Get/Put/Delete/Txn/Do/Compact/Watch/lease ops/Op*) on "
+    "a receiver whose text mentions client/cli/kv/txn/lease/etcd, inside pkg/metadata; an etcd write through another package or "
+    "under another receiver name is only caught by the before/after dumps",
     "the broker list is always stored in ascending node-id order (its clone is a flat copy of value structs); a handler that "
     "reorders a shared broker array would only be seen if another run stored it unsorted",
 ]
@@ -78,9 +101,18 @@ def extract(ck, binary):
     if rc != 0:
         raise RuntimeError("extractor failed: " + out + err)
     methods, tools, ntools = [], [], None
+    etcd, netcd = [], None
     for l in out.split("\n"):
         if l.startswith("method "):
             methods.append(l.split()[1])
+        elif l.startswith("etcdmethods "):
+            netcd = int(l.split()[1])
+        elif l.startswith("etcdmethod "):
+            m = re.match(r"etcdmethod (\S+) ops=(\S*) inner=(\S*)$", l)
+            if not m:
+                raise RuntimeError("bad extractor line " + l)
+            etcd.append({"method": m.group(1), "ops": [x for x in m.group(2).split(",") if x],
+                         "inner": [x for x in m.group(3).split(",") if x]})
         elif l.startswith("tools "):
             ntools = int(l.split()[1])
         else:
@@ -91,6 +123,9 @@ def extract(ck, binary):
                               "escapes": [e for e in m.group(4).split(",") if e]})
     if not methods or not tools or ntools != len(tools):
         raise RuntimeError("extractor output incomplete: " + out[-500:])
+    if netcd != len(etcd) or len(etcd) != len(methods):
+        raise RuntimeError("extractor output incomplete (etcd methods): " + out[-500:])
+    ck._c40_etcd = etcd
     return methods, tools
 
 
@@ -110,6 +145,15 @@ def generate(ck):
     src += ",\n".join('  { name := "%s", handler := "%s", calls := [%s], escapes := %d }'
                       % (t["name"], t["handler"], ", ".join(lean_ctor(c) for c in t["calls"]), len(t["escapes"]))
                       for t in tools)
+    src += "]\n"
+    # Store methods as implemented by EtcdStore: etcd client operations + calls into the cached in-memory snapshot
+    known_ops = {"Get": ".get", "Watch": ".watch", "OpGet": ".opGet", "Put": ".put", "Delete": ".delete", "Txn": ".txn",
+                 "OpPut": ".opPut", "OpDelete": ".opDelete", "OpTxn": ".opTxn"}
+    src += "def etcdMethods : List EtcdFacts := [\n"
+    src += ",\n".join("  { method := %s, ops := [%s], inner := [%s] }"
+                      % (lean_ctor(e["method"]), ", ".join(known_ops.get(o, ".other") for o in e["ops"]),
+                         ", ".join(lean_ctor(c) for c in e["inner"]))
+                      for e in ck._c40_etcd)
     src += "]\nend KafVerif.Gen.C40\n"
     old = open(GEN).read() if os.path.exists(GEN) else None
     if old != src:
@@ -151,8 +195,11 @@ def gen_load(rng):
         return "group %d %d %d %s" % (rng.below(4), rng.below(4), rng.below(6), csv(rng, 10, 4))
     if r < 88:
         return "config %d %d %d" % (rng.below(10), rng.choice([0, 1, 1, 3, 7]), rng.choice([-1, 0, 5000, 86400000]))
-    if r < 95:
+    if r < 93:
         return "parts %d %d" % (rng.below(10), rng.choice([2, 3, 4, 5, 1, 0]))   # CreatePartitions (persisted config may go stale)
+    if r < 97:
+        # a commit made long ago (etcd record with an old / zero / unparsable committed_at), see AGE_ROWS
+        return "oldcommit %d %d %d %d %d" % (rng.below(4), rng.below(10), rng.below(4), rng.choice([0, 7, 42, 1 << 40]), rng.below(AGE_ROWS))
     return "offs %d %d %d" % (rng.below(10), rng.below(4), rng.below(100))
 
 
@@ -184,6 +231,9 @@ def gen_call(rng, tools, known=()):
     return "call %s" % t
 
 
+# rows of the harness' committedAt table: 1 h, 6 d 23 h, 7 d + 1 s, 1 year, 30 d (zone +02:00), just under 7 d, zero time,
+# unparsable, empty
+AGE_ROWS = 9
 N_PART_ORDERS = 7    # rows of partOrderTable (Go harness and Lean model)
 
 
@@ -205,6 +255,7 @@ def gen_case(rng, tools, first=False):
             ops.append("rtopic %d %d %d" % (t, rng.choice([1, 2, 3, 4]) if not first else 3, rng.below(12)))
         else:
             ops.append("itopic %d %d" % (t, rng.choice([1, 2, 3, 0])))
+    initial = list(known)    # topics of the initial snapshot (first case: three partitions each)
     for _ in range(rng.range(4, 14)):
         op = gen_load(rng)
         ops.append(op)
@@ -222,8 +273,21 @@ def gen_case(rng, tools, first=False):
         for x in fresh:
             ops += ["topic %d 1" % x, "config %d 1 5000" % x, "parts %d 3" % x]
             known.append(x)
+        # commits of every age (AGE_ROWS) spread over the partitions of the known topics, then EVERY tool: a read-only tool must
+        # not expire / touch / rewrite a stale commit (the etcd dump compares keys, values and revisions)
+        n = len(initial)
+        old_groups = []
+        for row in range(AGE_ROWS):
+            g = 1 + row // (3 * n)
+            ops.append("oldcommit %d %d %d %d %d" % (g, initial[row % n], (row // n) % 3, 40 + row, row))
+            if g not in old_groups:
+                old_groups.append(g)
         for t in tools:   # every registered tool at least once, in table order, with explicit names where it takes any
             emit(gen_call(rng, [t], known))
+        for g in old_groups:
+            emit("call fetch_offsets %d %s" % (g, ",".join(str(x) for x in known)))
+            emit("call fetch_offsets %d -" % g)
+            emit("call describe_group %d" % g)
         for t in unsorted:   # the by-name form on a topic whose partitions array is stored out of order, alone
             emit("call describe_topics %d" % t)
             emit("call fetch_offsets 1 %d" % t)
@@ -359,6 +423,10 @@ def run(ck):
         for op, o in zip(ops, io):
             if op.startswith("call"):
                 ck.count("tool:" + op.split()[1] if op.split()[1] in tools else "tool:(unregistered)")
+        ck.count("old_commits", sum(1 for o in ops if o.startswith("oldcommit")))
+        ck.count("fetch_offsets_after_old_commit_of_that_group",
+                 sum(1 for k, o in enumerate(ops) if o.startswith("call fetch_offsets ") and len(o.split()) > 2
+                     and any(p.startswith("oldcommit %s " % o.split()[2]) for p in ops[:k])))
         populated = any(o.startswith("commit") for o in ops) and any(o.startswith("group") for o in ops)
         ck.count("topics_with_unsorted_replica_lists", sum(1 for o in ops if o.startswith("rtopic")))
         pts = set(o.split()[1] for o in ops if o.startswith("ptopic"))
